@@ -2,7 +2,7 @@
     Only property theorems here, each closed by [exact]/[vm_compute] of a lemma from Proofs15*.v.
     Inventory: Gen/GenScannerFields.v (regenerated from /repo on every run); classification: Classify15.v. *)
 From Coq Require Import String List NArith Bool.
-From XV Require Import Gen.GenScannerFields C15.Classify15 C15.Model15 C15.Proofs15 C15.Pool15 C15.ProofsPool15 C15.DocPool15 C15.SInfo15.
+From XV Require Import Gen.GenScannerFields C15.Classify15 C15.Model15 C15.Proofs15 C15.Pool15 C15.ProofsPool15 C15.DocPool15 C15.SInfo15 C15.FeatSeq15.
 Import ListNotations.
 Local Open Scope string_scope.
 
@@ -184,3 +184,33 @@ Example T15_seen_wrong_flag_refuted :
   let s := srun (fun use _ => use) [SReset; SLoad 1 true false; SReset] sinit in
   seen s 1 true false = true /\ memN 1 (poolG s) = false /\ memN 1 (bucketG s) = false.
 Proof. vm_compute. repeat split. Qed.
+
+(** ------------------------------------------------------------------------------------------------
+    settings derived from several features (model: FeatSeq15.v; tied to SAX2XMLReaderImpl::setFeature and
+    DOMLSParserImpl::setParameter by the Q requests: exhaustive call sequences up to length 4 + random long ones) *)
+
+(** T15_sax2_scheme: after ANY sequence of setFeature calls the validation scheme of the scanner is the function
+    (validation, dynamic) |-> Never / Always / Auto of the values getFeature reports *)
+Theorem T15_sax2_scheme : forall ops,
+  sch (s2run ops sax2_init) = scheme_of (fValidation (s2run ops sax2_init)) (fAutoValidation (s2run ops sax2_init)).
+Proof. exact sax2_scheme_final. Qed.
+Print Assumptions T15_sax2_scheme.
+
+Theorem T15_sax2_scheme_history_free : forall ops1 ops2,
+  fValidation (s2run ops1 sax2_init) = fValidation (s2run ops2 sax2_init) ->
+  fAutoValidation (s2run ops1 sax2_init) = fAutoValidation (s2run ops2 sax2_init) ->
+  sch (s2run ops1 sax2_init) = sch (s2run ops2 sax2_init).
+Proof. exact sax2_scheme_history_free. Qed.
+Print Assumptions T15_sax2_scheme_history_free.
+
+Theorem T15_ls_scheme_from_readback : forall ops1 ops2,
+  get_validate (fold_left lsstep ops1 Val_Never) = get_validate (fold_left lsstep ops2 Val_Never) ->
+  get_validate_if_schema (fold_left lsstep ops1 Val_Never) = get_validate_if_schema (fold_left lsstep ops2 Val_Never) ->
+  fold_left lsstep ops1 Val_Never = fold_left lsstep ops2 Val_Never.
+Proof. exact ls_scheme_from_readback. Qed.
+Print Assumptions T15_ls_scheme_from_readback.
+
+Theorem T15_ls_replay_readback : forall s,
+  fold_left lsstep [SetValidateIfSchema (get_validate_if_schema s); SetValidate (get_validate s)] Val_Never = s.
+Proof. exact ls_replay_readback. Qed.
+Print Assumptions T15_ls_replay_readback.
